@@ -250,6 +250,7 @@ huge_window(uint32_t b)
 
 /* ------------------------------------------------------------------ hidden inputs */
 int vc_hidden_seed = 1;
+int vc_step = 0;                        /* single-step the callee (stepmode command) */
 int vc_dump_secrets = 0;
 
 void
@@ -514,6 +515,10 @@ vcall(void *fn, int nargs, const uint64_t *args, obs *o)
                 in.cs[i] = splitmix64(hs + 200 + (uint64_t) i) | 0x8000000000000001ull;
         for (int i = 0; i < 4; i++)
                 in.garb[i] = splitmix64(hs + 300 + (uint64_t) i);
+        /* single-step mode: the trap flag is part of the flags image loaded right before the call; the (empty) SIGTRAP handler
+         * runs on the interrupted stack after every instruction of the callee, i.e. a signal frame is built below the red zone
+         * at every instruction boundary */
+        in.garb[3] = (in.garb[3] & ~0x100ull) | (vc_step ? 0x100ull : 0);
         for (int i = 0; i < 8; i++)
                 in.k_in[i] = splitmix64(hs + 400 + (uint64_t) i);
         if (!zg)
@@ -545,10 +550,20 @@ vcall(void *fn, int nargs, const uint64_t *args, obs *o)
         }
         if (!vc_parallel)
                 statics_snapshot();
-        uint32_t mx0;
-        uint16_t cw0;
-        __asm__ volatile("stmxcsr %0" : "=m"(mx0));
-        __asm__ volatile("fnstcw %0" : "=m"(cw0));
+        /* the caller's floating-point environment is part of the state a callee must preserve: run the call under a
+         * hidden-seed dependent, non-default rounding mode / precision / flush-to-zero setting (exceptions stay masked) and
+         * restore the driver's own afterwards */
+        uint32_t mx_drv, mx0;
+        uint16_t cw_drv, cw0;
+        __asm__ volatile("stmxcsr %0" : "=m"(mx_drv));
+        __asm__ volatile("fnstcw %0" : "=m"(cw_drv));
+        {
+                uint64_t r = splitmix64(hs + 11);
+                mx0 = 0x1F80u | (uint32_t) ((r & 3) << 13) | ((r >> 2) & 1 ? 0x8000u : 0) | ((r >> 3) & 1 ? 0x0040u : 0);
+                cw0 = (uint16_t) (0x003F | (((r >> 4) & 3) == 1 ? 0x0200 : (((r >> 4) & 3) << 8)) | (((r >> 6) & 3) << 10) | 0x0040);
+                __asm__ volatile("ldmxcsr %0" : : "m"(mx0));
+                __asm__ volatile("fldcw %0" : : "m"(cw0));
+        }
 
         int sig = sigsetjmp(vc_jmp, 1);
         if (sig == 0) {
@@ -602,6 +617,8 @@ vcall(void *fn, int nargs, const uint64_t *args, obs *o)
         }
         o->static_changed = vc_parallel ? 0 : statics_diff(o->static_sym, sizeof o->static_sym);
         o->static_nonbinding = (vc_parallel || !o->static_changed) ? 0 : statics_nonbinding();
+        __asm__ volatile("ldmxcsr %0" : : "m"(mx_drv));
+        __asm__ volatile("fldcw %0" : : "m"(cw_drv));
         if (!o->fault) {
                 const uint64_t *got = &vc_regs.rbx;
                 for (int i = 0; i < 6; i++)
